@@ -73,6 +73,16 @@ class Unit:
         raise ValueError(f"Invalid prefix: {prefix}")
 
     @staticmethod
+    def exceeds(value: float, limit: float) -> bool:
+        """
+        Returns True if value is greater than limit by more than floating point noise.
+        Rounding to internal_precision decimals cannot remove the noise of large values
+        (a double holds about 16 significant digits), so comparisons with a capacity or an
+        available amount also allow a relative difference of 1e-12.
+        """
+        return value > limit + max(abs(limit) * 1e-12, 10 ** -config.internal_precision)
+
+    @staticmethod
     def parse_quantity(quantity: str) -> Tuple[float, str]:
         """
 
@@ -757,7 +767,7 @@ class Container:
             amount_to_add = Unit.convert(source, quantity, config.moles_storage_unit)
         if round(volume_to_add, config.internal_precision) < 0 or round(amount_to_add, config.internal_precision) < 0:
             raise ValueError("Quantity to add must not be negative.")
-        if round(self.volume + volume_to_add, config.internal_precision) > self.max_volume:
+        if Unit.exceeds(round(self.volume + volume_to_add, config.internal_precision), self.max_volume):
             raise ValueError("Exceeded maximum volume")
         self.volume = round(self.volume + volume_to_add, config.internal_precision)
         self.contents[source] = round(self.contents.get(source, 0) + amount_to_add, config.internal_precision)
@@ -781,7 +791,7 @@ class Container:
 
         def checked_ratio(requested, available):
             """ Fraction of the source to move; refuses to take more than the source holds. """
-            if requested > round(available, config.internal_precision):
+            if Unit.exceeds(requested, round(available, config.internal_precision)):
                 raise ValueError(f"Not enough mixture left in source container ({source_container.name}). " +
                                  f"Only {available} available, {requested} needed.")
             return requested / available if available else 0.0
@@ -790,7 +800,7 @@ class Container:
             volume_to_transfer = Unit.convert_to_storage(quantity_to_transfer, 'L')
             volume_to_transfer = round(volume_to_transfer, config.internal_precision)
 
-            if volume_to_transfer > source_container.volume:
+            if Unit.exceeds(volume_to_transfer, source_container.volume):
                 raise ValueError(f"Not enough mixture left in source container ({source_container.name}). " +
                                  f"Only {Unit.convert_from_storage(source_container.volume, 'mL')} mL available, " +
                                  f"{Unit.convert_from_storage(volume_to_transfer, 'mL')} mL needed.")
@@ -845,7 +855,7 @@ class Container:
             unit = 'U' if substance.is_enzyme() else config.moles_storage_unit
             to.volume += Unit.convert(substance, f"{amount} {unit}", config.volume_storage_unit)
         to.volume = round(to.volume, config.internal_precision)
-        if to.volume > to.max_volume:
+        if Unit.exceeds(to.volume, to.max_volume):
             raise ValueError(f"Exceeded maximum volume in {to.name}.")
         source_container.volume = 0
         for substance, amount in source_container.contents.items():
@@ -1434,7 +1444,7 @@ class Container:
         needed_solvent = f"{required_amount} {storage_unit(solvent)}"
         new_volume = self.volume + Unit.convert(solvent, needed_solvent, config.volume_storage_unit)
 
-        if round(new_volume, config.internal_precision) > self.max_volume:
+        if Unit.exceeds(round(new_volume, config.internal_precision), self.max_volume):
             raise ValueError("Dilute solution will not fit in container.")
 
         if name:
